@@ -150,11 +150,45 @@ func (m *mrClassifier) sortedLater(obj types.Object) bool {
 		if !ok || call.Pos() < m.rs.End() || len(call.Args) == 0 {
 			return true
 		}
+		id, ok := ast.Unparen(call.Args[0]).(*ast.Ident)
+		if !ok || m.pk.TypesInfo.ObjectOf(id) != obj {
+			return true
+		}
 		callee := core.FullName(core.Callee(m.pk, call))
 		switch callee {
-		case "sort.Strings", "sort.Ints", "sort.Slice", "sort.SliceStable", "sort.Sort", "sort.Stable", "slices.Sort", "slices.SortFunc", "slices.SortStableFunc":
-			if id, ok := ast.Unparen(call.Args[0]).(*ast.Ident); ok && m.pk.TypesInfo.ObjectOf(id) == obj {
-				found = true
+		case "sort.Strings", "sort.Ints", "sort.Float64s", "slices.Sort":
+			// natural total order on the (unique) collected keys
+			found = true
+		case "sort.Slice", "sort.SliceStable", "slices.SortFunc", "slices.SortStableFunc":
+			// only a comparator on the elements themselves is a total order on unique keys;
+			// sorting by a derived attribute leaves ties in map order
+			if len(call.Args) == 2 {
+				if fl, ok := call.Args[1].(*ast.FuncLit); ok && len(fl.Body.List) == 1 {
+					if ret, ok := fl.Body.List[0].(*ast.ReturnStmt); ok && len(ret.Results) == 1 {
+						if be, ok := ast.Unparen(ret.Results[0]).(*ast.BinaryExpr); ok && (be.Op == token.LSS || be.Op == token.GTR) {
+							isElem := func(e ast.Expr) bool {
+								switch x := ast.Unparen(e).(type) {
+								case *ast.IndexExpr:
+									xi, ok := ast.Unparen(x.X).(*ast.Ident)
+									return ok && m.pk.TypesInfo.ObjectOf(xi) == obj
+								case *ast.Ident:
+									// slices.SortFunc(a, b) parameters
+									for _, f := range fl.Type.Params.List {
+										for _, nm := range f.Names {
+											if nm.Name == x.Name {
+												return true
+											}
+										}
+									}
+								}
+								return false
+							}
+							if isElem(be.X) && isElem(be.Y) {
+								found = true
+							}
+						}
+					}
+				}
 			}
 		}
 		return true
